@@ -375,13 +375,14 @@ func TestC06(t *testing.T) {
 		spec.NoStructOnly = true
 	}
 	thorough := os.Getenv("VERIF_TIER") == "thorough"
-	Col.SetProp("C06", "a generated store-backed workload (batches, persistence rounds incl. partial / full / idle compactions, drain+reopen) runs fault-free once to count its file operations, then again once per injected fault: site = index of a file operation (quick: 12 generated sites per workload; thorough: every site up to 150) x kind by the operation hit (create/open error, WriteAt error, short write of 0% / 50% with io.ErrShortWrite, Sync error, Stat error) x shape (single, burst of 2-5 consecutive operations, persistent until a generated later step). After every step: collection == reference; Store.Snapshot() == the reference prefix covered by the rounds that reported success (a round that ends without OnError must really contain its batches - checked by reading everything); after a failed round (surfaced through OnError, which the controller requires) a copy of the directory must reopen to a batch prefix no shorter than that; once faults stop, draining must reach the full reference in the store and after reopen. evaluations = faulted runs. Non-trivial: the fault was actually hit (wrapper counter). Distinct = distinct (program, fault).")
+	Col.SetProp("C06", "a generated store-backed workload (batches, persistence rounds incl. partial / full / idle compactions, drain+reopen) runs fault-free once to count its file operations, then again once per injected fault: site = index of a file operation (quick: 12 generated sites per workload; thorough: every site up to 150) x kind by the operation hit (create/open error, WriteAt error, short write of 0% / 50% / 99% with io.ErrShortWrite or, for single faults, with no error at all, Sync error, Stat error) x shape (single, burst of 2-5 consecutive operations, persistent until a generated later step). After every step: collection == reference; Store.Snapshot() == the reference prefix covered by the rounds that reported success (a round that ends without OnError must really contain its batches - checked by reading everything); after a failed round (surfaced through OnError, which the controller requires) a copy of the directory must reopen to a batch prefix no shorter than that; once faults stop, draining must reach the full reference in the store and after reopen. evaluations = faulted runs. Non-trivial: the fault was actually hit (wrapper counter). Distinct = distinct (program, fault).")
 	rapid.Check(t, func(rt *rapid.T) {
 		p, _ := genHistory(rt, spec)
 		x := C06Extra{All: thorough}
 		if !thorough {
 			for i := 0; i < 12; i++ {
 				f := FaultSpec{Site: rapid.IntRange(0, 400).Draw(rt, "site"), ShortPct: -1}
+				f.Class = rapid.SampledFrom([]string{"", "", "", "header", "footer", "data", "sync", "open", "stat"}).Draw(rt, "class")
 				switch pick(rt, "shape", 50, 25, 25) {
 				case 0:
 					f.Shape = "single"
@@ -392,6 +393,7 @@ func TestC06(t *testing.T) {
 				}
 				if chance(rt, "short", 40) {
 					f.ShortPct = rapid.SampledFrom([]int{0, 50, 99}).Draw(rt, "shortpct")
+					f.Silent = f.Shape == "single" && chance(rt, "silent", 35)
 				}
 				x.Faults = append(x.Faults, f)
 			}
